@@ -1,5 +1,6 @@
 import TsVerif.Common.IO
 import TsVerif.C04.Judge
+import TsVerif.C04.Ends
 /-!
 Driver for C04.  Line protocol (see harness/src/bin/c04.rs, harness/csrc/cunit_c04.c):
 
@@ -115,7 +116,16 @@ def runCase (s : St) : String :=
     let cov := if hGrow && hTile && hSound then "ok"
       else "na:" ++ (if hGrow then "" else "grow") ++ (if hTile then "" else "tile") ++ (if hSound then "" else "sound")
     let rchg := if decide (o.ranges = n.ranges) then 0 else 1
-    s!"{s.id} corr={corr} corrF={if corrF == "ok" then "ok" else "DIFF"} corrA={if corrA == "ok" then "ok" else "DIFF"} corrmsg={corrF} judge={j} cause={cause} mono={mono} msound={ms} cov={cov} nr={s.reported.length} diffbytes={v.diffBytes} uncov={v.uncovered} uncovtok={v.uncoveredInToken} uncovlist={v.uncoveredBytes} same={v.coveredSame} rchg={rchg} calls={ch.main.length + ch.post.length} matched={ch.matched.length}{fixmsg}"
+    -- premises of `changed_sorted_bounded` / `changed_covers` (Props.lean) on this case
+    let pSO := allSizedB o.root
+    let pSN := allSizedB n.root
+    let pEntry := entryOK o.root n.root
+    let prem := if pSO && pSN && pEntry && !ch.fuelOut then "ok"
+      else "na:" ++ (if pSO then "" else "sizedOld") ++ (if pSN then "" else "sizedNew") ++ (if pEntry then "" else "entry") ++ (if ch.fuelOut then "fuel" else "")
+    -- … and its conclusions, evaluated (an instance of the theorem: must hold whenever the premises do)
+    let hiB := max o.root.totalBytes n.root.totalBytes
+    let concl := traceAdmissible [] (ch.main ++ ch.post) && hGrow && hTile && ch.ranges.all (fun r => decide (r.end_byte ≤ hiB))
+    s!"{s.id} corr={corr} corrF={if corrF == "ok" then "ok" else "DIFF"} corrA={if corrA == "ok" then "ok" else "DIFF"} corrmsg={corrF} judge={j} cause={cause} mono={mono} msound={ms} cov={cov} prem={prem} concl={if concl then "ok" else "bad"} nr={s.reported.length} diffbytes={v.diffBytes} uncov={v.uncovered} uncovtok={v.uncoveredInToken} uncovlist={v.uncoveredBytes} same={v.coveredSame} rchg={rchg} calls={ch.main.length + ch.post.length} matched={ch.matched.length}{fixmsg}"
   | _, _, _ => s!"{s.id} corr=BADINPUT judge=BADINPUT"
 
 def step (s : St) (line : String) : IO St := do
